@@ -218,13 +218,15 @@ def info_vs_full(ctx, label, b, data_bits, spec, model_full=True):
     return breaks
 
 
-def stream_scan(ctx, messages, rng):
+def stream_scan(ctx, messages, rng, stream=None):
     """info-only scan: every message comes back with exactly its own bytes (by declared total length)"""
     from pybufrkit.decoder import Decoder, generate_bufr_message
     s = b''
     for m in messages:
         s += bytes(rng.choice(b'\x00\x01 abcxyz\xff') for _ in range(rng.choice([0, 0, 2, 5]))) + m
     s += b'tail'
+    if stream is not None:
+        s = stream
     try:
         got = [m.serialized_bytes for m in generate_bufr_message(Decoder(), s, info_only=True)]
     except Exception as e:  # noqa
@@ -234,7 +236,7 @@ def stream_scan(ctx, messages, rng):
     if got != list(messages):
         ctx.violation('info-only stream scan of %d messages returned %s' % (
             len(messages), got if isinstance(got, str) else 'different byte strings (%d messages)' % len(got)),
-            {'stream': s.hex()[:6000], 'n': len(messages)}, signature={'kind': 'stream'})
+            {'stream': s.hex(), 'messages': [m.hex() for m in messages]}, signature={'kind': 'stream'})
 
 
 def run(ctx):
@@ -321,5 +323,7 @@ def replay(ctx, path):
         b = bytes.fromhex(rp['hex'])
         br = info_vs_full(ctx, 'replay', b, (rp.get('spec') or {}).get('k', 0), rp.get('spec'), model_full=False)
         print(json.dumps({'breaks': br}, default=repr)[:2000])
+    elif 'stream' in rp and 'messages' in rp:
+        stream_scan(ctx, [bytes.fromhex(m) for m in rp['messages']], ctx.rng('replay'), stream=bytes.fromhex(rp['stream']))
     else:
         print(json.dumps(rp, default=repr)[:2000])
